@@ -1,6 +1,7 @@
 CONSTANTS LOCSYMSIGHT = 3
-          MaxLen = 4 MaxDepth = 2 Focus = "temp" Devs = {} CaseModes = {FALSE}
+          MaxLen = 4 MaxDepth = 2 Focus = "temp" CaseModes = {FALSE}
+          DevSets = {{}, {"popv_const", "dd_same_name", "empty_macro_nested"}} CheckConst = FALSE
 SPECIFICATION Spec
-INVARIANTS LookupAgreesWithManual ExtraPassAgrees ConvergesInTwo StackMirrorsText
+INVARIANTS LookupAgreesWithManual ExtraPassAgrees ConvergesInTwo StackMirrorsText StacksNonEmpty
 PROPERTIES ConstNeverChanges RedefIsError
 CHECK_DEADLOCK FALSE
